@@ -58,7 +58,9 @@ func TypeName(t reflect.Type) string {
 }
 
 func rootIsInterface(t reflect.Type) bool {
-	for i := 0; i < 64 && (t.Kind() == reflect.Slice || t.Kind() == reflect.Ptr || t.Kind() == reflect.Array); i++ {
+	// (a named slice type - type Bag []interface{} - is a type of its own with a registered name, not "a
+	// slice of interface values": the descent stops at it)
+	for i := 0; i < 64 && t.Name() == "" && (t.Kind() == reflect.Slice || t.Kind() == reflect.Ptr || t.Kind() == reflect.Array); i++ {
 		t = t.Elem() // (bounded: type Tree []Tree has no root)
 	}
 	return t.Kind() == reflect.Interface
